@@ -86,6 +86,25 @@ CHECKS = {
                 "searched, not proved. Open known finding KF-D3p ('.\\n' under NODOTDIR).",
         'technique': 'Lean 4 induction over the faithful parser model (all strings, all flags) + escape/is_magic correspondence + API search',
     },
+    'C16': {
+        'text': "Theorems over a line-by-line Lean model of wcmatch/pathlib.py, for ALL flag words (Nat), all four path "
+                "classes and both hosts: closed form of _translate_flags (raises exactly for REALPATH on a class of the "
+                "foreign platform; user FORCEWIN/FORCEUNIX and everything outside FLAG_MASK is dropped; platform bit forced "
+                "by the class), the exact words Path.glob/rglob/globmatch/full_match/match hand to wcmatch.glob "
+                "(_NOABSOLUTE, _PATHLIB, _EXTMATCHBASE, SCANDOTDIR set exactly where the code sets them), the methods as "
+                "views of the given iglob/globmatch (map joinpath, root_dir=str(self), directory slash), ValueError for an "
+                "absolute pattern tied to the WcParse model (exactly when the pattern starts with '/'), and the seen-set "
+                "theorems (no key twice, no key lost, pathlib list = first-occurrence de-duplication of the plain list). "
+                "Tied to the code by source-text pins (ast.unparse of every mirrored method, FLAG_MASK terms) and stream K8 "
+                "(flag words, recorded calls into wcmatch.glob, _pathlib_norm/_format_path). The property itself is searched "
+                "on generated real trees through the public APIs.",
+        'note': TB + "glob.iglob/glob.globmatch are parameters of the method model (walker modelled elsewhere), so "
+                "`q.match(p, REALPATH) <-> q in Path('.').rglob(p)` is stated and compared on every entry of every tree, not "
+                "proved; pathlib's own normalisation (str, joinpath, ==, is_dir) is an assumption (hN), sampled; host is "
+                "POSIX (WindowsPath cannot be instantiated; the 'nt' branch is reached by presenting os.name='nt').",
+        'technique': 'Lean 4 theorems on bit-level flag words + method model with glob as parameter; K8 correspondence; '
+                     'public-API differential on generated real trees',
+    },
     'C17': {
         'text': "Theorems (Lean): case table for every flag record (case-insensitive exactly when CASE is off and IGNORECASE is on or "
                 "Windows rules are in force; CASE wins); FORCEWIN together with FORCEUNIX cancel in fnmatch._flag_transform for every "
@@ -228,4 +247,4 @@ CHECKS = {
     },
 }
 
-NOT_APPLICABLE = {k: 'check not delivered yet in this session (model/proofs in progress); no claim is made' for k in ['C16']}
+NOT_APPLICABLE = {}
